@@ -1,6 +1,6 @@
 """Property -> rules table. Each rule callable: (prog, tier, repo) -> [RuleResult]."""
 from .rules import traversal_instances as TI
-from .rules import printer_rules, parser_progress, loc_enclose
+from .rules import printer_rules, parser_progress, loc_enclose, order_taint
 from .rules import gate, lookup_unwrap, heap, witness, incremental, optimizer, const_arith, shape, backend, printer_rules, comment_linear, enum_evidence, ssa_shared, lex_bounds, gc_rules, scope, eval_order, guard_table, relation, type_walker, str_slice, loc_guard, sweep_window
 
 PROPERTIES = {}
@@ -129,6 +129,18 @@ prop('C15', COMMON +
 import os as _os
 for _p in _os.environ.get('SA_UNCLAIMED', 'C09,C11').split(','):
     pass
+
+prop('C12', COMMON +
+     'Clause "the same rendered diagnostics whatever the hash seeds": the error set is an ordered set, so the sequence of '
+     'diagnostics is stable; ORDER-TAINT decides their content - an interprocedural taint analysis from every iteration of a '
+     'HashMap/HashSet (15 sites in checker, parser and errors crates) through iterator adapters, next() elements, pushes '
+     'into vectors/strings, aggregates and function results to the arguments of the 87 ErrorSet::report_* / '
+     'StackableError::add_* call sites; sorting, min/max/count/any/all and collecting into a hash or B-tree collection '
+     'remove the taint. COUNTER-SYNC (shared with C02): every temp-name counter handed to the parallel optimiser is '
+     'synchronised back on every path. Does not decide that programs emitted under different module enumeration orders or '
+     'thread counts behave the same (synthetic numbering follows hash order by design).',
+     [order_taint.run, scope.run_counter_sync],
+     ['ErrorSet keeps its errors in an ordered set (BTreeSet) and renders them in that order'])
 
 prop('C14', COMMON +
      'Clause "a position encloses the positions of its sub-parts": LOC-ENCLOSES traces every Location the parser stores in a '
